@@ -147,6 +147,14 @@ func corruptions(r *rng.R, root *model.Node, path string) []string {
 		e = append(e, model.Seg{Sigil: segs[i].Sigil, Text: ""})
 		e = append(e, segs[i:]...)
 		out = append(out, join(e))
+		// an empty segment of the other kind in front (".m.#1" is the key "" and then an index, not ".m#1")
+		e2 := append([]model.Seg{}, e...)
+		if e2[i].Sigil == '.' {
+			e2[i].Sigil = '#'
+		} else {
+			e2[i].Sigil = '.'
+		}
+		out = append(out, join(e2))
 		// emptied segment
 		f := append([]model.Seg{}, segs...)
 		f[i].Text = ""
